@@ -28,7 +28,7 @@ BUDGET = {
     'thorough': {'enum': [4, 5], 'hyp': 60000, 'shards': 16},
 }
 TERMINALS = ['value', 'exception', 'cancel']
-CT_FNS = ['value', 'raise', 'gate-value', 'gate-raise', 'raise-cancelled', 'gate-raise-cancelled', 'raise-invalid', 'gate-raise-invalid']
+CT_FNS = ['value', 'raise', 'gate-value', 'gate-raise', 'raise-cancelled', 'gate-raise-cancelled', 'raise-invalid', 'gate-raise-invalid', 'factory-raise']
 ADAPTERS = ['unwrap', 'plum2kiwi', 'rpc', 'convert', 'convert-async']
 
 
@@ -56,7 +56,7 @@ def enumerate_cases(tier, scope):
     ops = ['run', 'cancel', 'run']
     for n in range(1, 4):
         for seq in itertools.product(['run', 'cancel'], repeat=n):
-            for fn in ('value', 'raise'):
+            for fn in ('value', 'raise', 'raise-base'):
                 yield {'kind': 'action', 'fn': fn, 'ops': list(seq)}
     _ = ops
 
@@ -75,7 +75,7 @@ def _cases(draw, tier):
             'drain': draw(st.sampled_from(['each', 'end', 'alternate'])),
         }
     if kind == 'action':
-        return {'kind': 'action', 'fn': draw(st.sampled_from(['value', 'raise'])), 'ops': draw(st.lists(st.sampled_from(['run', 'cancel']), min_size=1, max_size=5))}
+        return {'kind': 'action', 'fn': draw(st.sampled_from(['value', 'raise', 'raise-base'])), 'ops': draw(st.lists(st.sampled_from(['run', 'cancel']), min_size=1, max_size=5))}
     if draw(st.integers(0, 3)) == 0:
         return {'kind': 'rpc_plain', 'fn': draw(st.sampled_from(['value', 'raise'])), 'thread': draw(st.booleans())}
     return {'kind': 'create_task', 'fn': draw(st.sampled_from(CT_FNS)), 'thread': draw(st.booleans())}
@@ -209,6 +209,15 @@ def _run_create_task(case, v):
                     raise error
                 return value
 
+            if case['fn'] == 'factory-raise':
+                # the factory itself fails, before any coroutine exists (e.g. a subscriber called with the wrong arguments)
+                async_coro = coro
+
+                def coro():  # noqa: F811
+                    calls.append(1)
+                    raise error
+
+                _ = async_coro
             if case.get('thread'):
                 # the adapters exist to be called from communicator threads: do so (the thread is joined before the
                 # harness looks, so this is deterministic) and require that the idle loop is woken up
@@ -365,6 +374,9 @@ def _run_action(case, v):
                 calls.append((args, kwargs))
                 if case['fn'] == 'raise':
                     raise error
+                if case['fn'] == 'raise-base':
+                    # e.g. the function looked at a dependency that was cancelled meanwhile: not an Exception
+                    raise asyncio.CancelledError('a cancelled dependency')
                 return value
 
             action = futures.CancellableAction(fn, cookie='c')
@@ -382,8 +394,12 @@ def _run_action(case, v):
                     raised = None
                 except Exception as exc:  # noqa: BLE001
                     raised = exc
+                except asyncio.CancelledError as exc:
+                    raised = exc if (ran or cancelled or case['fn'] != 'raise-base') else None  # the first run lets it through
                 if ran or cancelled:
-                    if raised is None:
+                    if raised is None and not (ran and case['fn'] == 'raise-base'):
+                        # (after a run that a BaseException cut short the action is neither done nor runnable: what
+                        # counts there is that the function is not called again, which the call count below decides)
                         v('rerun-not-refused', f"op {i}: run() after {'cancel' if cancelled and not ran else 'run'} did not raise")
                 else:
                     ran = True
@@ -396,7 +412,9 @@ def _run_action(case, v):
             if calls and calls[0] != ((1,), {'k': 2}):
                 v('arguments', f'function received {calls[0]}')
             got = _state(action)
-            if ran:
+            if ran and case['fn'] == 'raise-base':
+                pass  # a BaseException is not an outcome the action has to carry; the function must still not run again
+            elif ran:
                 if case['fn'] == 'raise':
                     if got[0] != 'exception' or got[1] is not error:
                         v('outcome-not-on-action', f'expected the exception on the action, got {got}')
